@@ -87,6 +87,13 @@ def pick(seq, idx):
     return seq[len(seq) - 1]
 
 
+def cb(x) -> bool:
+    """concrete bool equal to (possibly symbolic) x - forks under CrossHair"""
+    if x:
+        return True
+    return False
+
+
 def conc(n, lo, hi):
     """Concrete int equal to symbolic n in [lo, hi] (forks one path per value):
     used for buffer lengths, which CrossHair handles badly when symbolic."""
